@@ -21,6 +21,8 @@ pub fn drive(log: &mut Log) {
         }
         let mut rng = Rng::new(seed, 21, case);
         let w = (case % 8 + 1) as usize;
+        // cases 7 and 3 (widths 8 and 4: no padding bits) go beyond 2^32 bits
+        let huge = (case == 7 || (case == 3 && log.opts.thorough())) && std::env::var("VERIF_BITENC_HUGE").map(|v| v != "0").unwrap_or(true);
         if !log.begin("big", json!({"w": w})) {
             continue;
         }
@@ -42,6 +44,8 @@ pub fn drive(log: &mut Log) {
                 len += 1;
             }
             let big = match r {
+                // one case holds more than 2^32 payload bits (512 MiB of storage)
+                0 if huge => (1usize << 32) / w - 2,
                 0 => *rng.pick(&[65_535usize, 65_536, 65_537, 100_000, 1 << 20, (1 << 22) + 1]),
                 _ => rng.range(1000, 300_000) as usize,
             };
@@ -61,6 +65,9 @@ pub fn drive(log: &mut Log) {
             continue;
         }
         log.oblige("bitenc_more_than_65536_symbols");
+        if huge {
+            log.oblige("bitenc_more_than_2p32_bits");
+        }
         let mut idx: Vec<usize> = vec![];
         for &bd in &bounds {
             for d in [-2i64, -1, 0, 1, 2] {
